@@ -452,6 +452,14 @@ func c17RunStep(r *h.Result, sc *fakes.Script, q storage.Querier, c *c17StepCase
 		ops = append(ops, o...)
 		impl = append(impl, im...)
 	}
+	if mode == "downsample" {
+		o, im, err := c17DownTie(c, seen, ms, got)
+		if err != nil {
+			return nil, nil, err
+		}
+		ops = append(ops, o...)
+		impl = append(impl, im...)
+	}
 	// differential tie with the Lean model: the rows of the raw scan (selected series, window) → model → series
 	if mode != "downsample" {
 		var rows []string
@@ -582,6 +590,82 @@ func c17StepText(c *c17StepCase, seen []string) (ops, impl []string, err error) 
 	return ops, impl, nil
 }
 
+// c17DownTie: the down-sampled query text vs Downsample.renderDown, and the series Select hands out vs
+// Downsample.down + mapResult over the metrics_15s rows of the series the label index selects.
+func c17DownTie(c *c17StepCase, seen []string, ms []*labels.Matcher, got []c17Series) (ops, impl []string, err error) {
+	text := ""
+	for _, q := range seen {
+		if strings.Contains(q, "metrics_15s") {
+			text = q
+		}
+	}
+	const pre = "WITH fp_sel as ("
+	if !strings.HasPrefix(text, pre) {
+		return nil, nil, fmt.Errorf("down-sampled sample query does not start with %q: %s", pre, text)
+	}
+	_, rest, err := c17Balanced(text, len(pre)-1)
+	if err != nil {
+		return nil, nil, err
+	}
+	fn := c.Func
+	if fn == "" {
+		fn = "-"
+	}
+	ops = append(ops, fmt.Sprintf("c17downsql %d %d %d %d %s", c.Start, c.End, c.Step, c.Range, fn))
+	impl = append(impl, "text:"+h.Hex([]byte(c17Collapse(rest))))
+	var rows []string
+	sel := append([]c17E2ESeries(nil), c.Series...)
+	sort.Slice(sel, func(i, j int) bool { return sel[i].Fp < sel[j].Fp })
+	for _, s := range sel {
+		if (s.Type != 2 && s.Type != 0) || !c17IdxSel(s, ms, true) {
+			continue
+		}
+		for _, a := range c17Rows15(s) {
+			rows = append(rows, fmt.Sprintf("%d:%d:%d:%d:%d:%d:%d:%d", s.Fp, a.b, int64(a.lastV), a.lastTs, int64(a.min), int64(a.max), int64(a.sum), a.count))
+		}
+	}
+	rs := "-"
+	if len(rows) > 0 {
+		rs = strings.Join(rows, ",")
+	}
+	ops = append(ops, fmt.Sprintf("c17down %d %d %d %d %s %s", c.Start, c.End, c.Step, c.Range, fn, rs))
+	gs := append([]c17Series(nil), got...)
+	sort.Slice(gs, func(i, j int) bool { return gs[i].Fp < gs[j].Fp })
+	var parts []string
+	for _, g := range gs {
+		parts = append(parts, fmt.Sprintf("%d=%s", g.Fp, c17StepSamplesStr(g.Samples)))
+	}
+	im := "-"
+	if len(parts) > 0 {
+		im = strings.Join(parts, ";")
+	}
+	impl = append(impl, "down:"+im)
+	return ops, impl, nil
+}
+
+// c17DownCanon turns the model's fp=ts:num/den|… into the float notation of the implementation side
+func c17DownCanon(m string) string {
+	if m == "-" || m == "unsupported" || m == "bad-op" {
+		return m
+	}
+	ser := strings.Split(m, ";")
+	for i, sr := range ser {
+		eq := strings.IndexByte(sr, '=')
+		if eq < 0 {
+			continue
+		}
+		pts := strings.Split(sr[eq+1:], "|")
+		for j, p := range pts {
+			var ts, num, den int64
+			if _, err := fmt.Sscanf(p, "%d:%d/%d", &ts, &num, &den); err == nil {
+				pts[j] = strconv.FormatInt(ts, 10) + ":" + strconv.FormatFloat(float64(num)/float64(den), 'g', -1, 64)
+			}
+		}
+		ser[i] = sr[:eq+1] + strings.Join(pts, "|")
+	}
+	return strings.Join(ser, ";")
+}
+
 // c17OnlyFirstBucket: every in-window sample of the series lies in [Start, Start+15s)
 func c17OnlyFirstBucket(c *c17StepCase, s c17E2ESeries) bool {
 	n := 0
@@ -667,7 +751,7 @@ func c17GenStep(rng *h.Rng) c17StepCase {
 }
 
 func c17StepStream(r *h.Result, rng *h.Rng, n int) error {
-	r.Stream("step: real Select with range-query hints (Step ≠ 0, Func, Range) → TranspileLabelMatchers+processHints or TranspileLabelMatchersDownsample → SQL text → reference interpreter over samples_v3 / metrics_15s (derived as the materialized view does) → scripted driver → real row loop (+MapResult); vs Prom.Stepped.run (raw path); oracles on the stored samples")
+	r.Stream("step: real Select with range-query hints (Step ≠ 0, Func, Range) → TranspileLabelMatchers+processHints or TranspileLabelMatchersDownsample → SQL text → reference interpreter over samples_v3 / metrics_15s (derived as the materialized view does) → scripted driver → real row loop (+MapResult); vs Prom.Stepped.run / renderBucket / renderFilter (raw path) and Prom.Downsample.down / mapResult / renderDown (down-sampled path); oracles on the stored samples")
 	sc := fakes.NewScript(nil)
 	defer sc.Close()
 	q, err := c17Querier(sc, "c17-step")
@@ -721,6 +805,9 @@ func c17StepCompare(r *h.Result, ops, impl []string, cases []any) error {
 		case strings.HasPrefix(im, "text:"):
 			im = strings.TrimPrefix(im, "text:")
 			m = hexCollapse(m)
+		case strings.HasPrefix(im, "down:"):
+			im = strings.TrimPrefix(im, "down:")
+			m = c17DownCanon(m)
 		case strings.HasPrefix(im, "text2:"):
 			im = strings.TrimPrefix(im, "text2:")
 			f := strings.Fields(m)
